@@ -164,7 +164,12 @@ func (r *v06Run) window(ux, uy *v06User, win v06Window, idx *int) bool {
 	} else if !r.step(x, v06Op{v06TW, win.chunk}) {
 		return false
 	}
-	waitCh(pk.parkedCh, "the relay never asked the logger about X's chunk")
+	select {
+	case <-pk.parkedCh:
+	case <-time.After(v06WaitLong):
+		r.stall(x, "the relay never asked the logger about X's chunk")
+		return false
+	}
 	// the other direction of X ends
 	w.mu.Lock()
 	x.terminated = true
